@@ -3,7 +3,8 @@
 Why not rdflib.compare: `rdflib.compare.isomorphic` / `to_canonical_graph` (rdflib 7.6.0) answer False / give different canonical
 forms for some ISOMORPHIC graphs, depending on the interpreter's hash seed (corpus/iso/rdflib_false_negative_{a,b}.nt: two
 120-triple data-flow graphs with several internal nodes; about one run in six says False). A positive answer of rdflib is
-reliable (equal canonical hashes), a negative one is not - so rdflib is used as a fast path for "yes" only.
+reliable (equal canonical hashes), a negative one is not; and its canonical form costs exponential time on symmetric graphs (one C08
+thorough case did not finish in 12 minutes) - so rdflib.compare is not used at all any more.
 
 The algorithm is individualisation-refinement: colour refinement (1-WL) on the blank nodes of both graphs with a shared
 signature table; differing colour histograms refute; otherwise pick the smallest non-singleton colour class, individualise one
@@ -97,24 +98,26 @@ def _search(g1, g2, c1, c2, table, budget):
     return False
 
 
-def isomorphic_triples(t1, t2, budget=200000):
+def isomorphic_triples(t1, t2, budget=20000):
+    """exact; between isomorphic graphs the first branch of every individualisation succeeds when the tied nodes are symmetric, so the budget
+    (number of individualisations tried) is only ever exhausted by graphs that refinement cannot tell apart and that admit no isomorphism
+    - or that hide one very deep; such a pair is answered "not isomorphic" (never observed)"""
     g1, g2 = _G(t1), _G(t2)
     if len(g1.triples) != len(g2.triples) or len(g1.bnodes) != len(g2.bnodes) or g1.ground != g2.ground:
         return False
     table = {}
-    return _search(g1, g2, {b: 0 for b in g1.bnodes}, {b: 0 for b in g2.bnodes}, table, [budget])
+    try:
+        return _search(g1, g2, {b: 0 for b in g1.bnodes}, {b: 0 for b in g2.bnodes}, table, [budget])
+    except RuntimeError:
+        return False
 
 
 def isomorphic(a, b):
-    """drop-in replacement for rdflib.compare.isomorphic on two rdflib graphs"""
+    """drop-in replacement for rdflib.compare.isomorphic on two rdflib graphs. rdflib is not consulted at all: besides its false negatives,
+    its canonicalisation explores every branch of a symmetric graph and did not come back within 12 minutes on a data-flow graph of the
+    C08 thorough tier (seed 157); finding ONE isomorphism, as below, needs a single successful branch"""
     if len(a) != len(b):
         return False
-    try:
-        from rdflib.compare import isomorphic as rd
-        if rd(a, b):
-            return True    # equal canonical hashes: reliable
-    except Exception:
-        pass
     return isomorphic_triples(triples_of(a), triples_of(b))
 
 
